@@ -75,6 +75,8 @@ pub fn child_records(args: &[String]) -> i32 {
             return 2;
         }
     };
+    // marker for system-call tracing: everything after this call is made on behalf of an input
+    let _ = std::fs::metadata("/FPVERIF-PROBE-START");
     let out = std::io::stdout();
     let mut out = out.lock();
     let mut i = shard;
